@@ -250,6 +250,7 @@ type Server struct {
 	// Shutdown handling
 	lock     sync.RWMutex
 	started  bool
+	serving  bool // the serve loop of the last start has not finished yet
 	shutdown chan struct{}
 	conns    map[net.Conn]struct{}
 
@@ -314,6 +315,9 @@ func (srv *Server) ListenAndServe() error {
 	if srv.started {
 		return &Error{err: "server already started"}
 	}
+	if srv.serving {
+		return &Error{err: "server still shutting down"}
+	}
 
 	addr := srv.Addr
 	if addr == "" {
@@ -330,6 +334,7 @@ func (srv *Server) ListenAndServe() error {
 		}
 		srv.Listener = l
 		srv.started = true
+		srv.serving = true
 		unlock()
 		verifHook("start.unlocked", nil)
 		return srv.serveTCP(l)
@@ -345,6 +350,7 @@ func (srv *Server) ListenAndServe() error {
 		l = tls.NewListener(l, srv.TLSConfig)
 		srv.Listener = l
 		srv.started = true
+		srv.serving = true
 		unlock()
 		verifHook("start.unlocked", nil)
 		return srv.serveTCP(l)
@@ -360,6 +366,7 @@ func (srv *Server) ListenAndServe() error {
 		}
 		srv.PacketConn = l
 		srv.started = true
+		srv.serving = true
 		unlock()
 		verifHook("start.unlocked", nil)
 		return srv.serveUDP(u)
@@ -377,6 +384,9 @@ func (srv *Server) ActivateAndServe() error {
 	if srv.started {
 		return &Error{err: "server already started"}
 	}
+	if srv.serving {
+		return &Error{err: "server still shutting down"}
+	}
 
 	srv.init()
 
@@ -389,12 +399,14 @@ func (srv *Server) ActivateAndServe() error {
 			}
 		}
 		srv.started = true
+		srv.serving = true
 		unlock()
 		verifHook("start.unlocked", nil)
 		return srv.serveUDP(srv.PacketConn)
 	}
 	if srv.Listener != nil {
 		srv.started = true
+		srv.serving = true
 		unlock()
 		verifHook("start.unlocked", nil)
 		return srv.serveTCP(srv.Listener)
@@ -434,6 +446,7 @@ func (srv *Server) ShutdownContext(ctx context.Context) error {
 		rw.SetReadDeadline(aLongTimeAgo) // Unblock reads
 	}
 
+	shutdown := srv.shutdown
 	srv.lock.Unlock()
 	verifHook("shutdown.unlocked", nil)
 
@@ -443,7 +456,7 @@ func (srv *Server) ShutdownContext(ctx context.Context) error {
 
 	var ctxErr error
 	select {
-	case <-srv.shutdown:
+	case <-shutdown:
 	case <-ctx.Done():
 		ctxErr = ctx.Err()
 	}
@@ -476,7 +489,10 @@ func (srv *Server) serveTCP(l net.Listener) error {
 	var wg sync.WaitGroup
 	defer func() {
 		wg.Wait()
+		srv.lock.Lock()
+		srv.serving = false
 		close(srv.shutdown)
+		srv.lock.Unlock()
 	}()
 
 	for srv.isStarted() {
@@ -525,7 +541,10 @@ func (srv *Server) serveUDP(l net.PacketConn) error {
 	var wg sync.WaitGroup
 	defer func() {
 		wg.Wait()
+		srv.lock.Lock()
+		srv.serving = false
 		close(srv.shutdown)
+		srv.lock.Unlock()
 	}()
 
 	rtimeout := srv.getReadTimeout()
